@@ -282,8 +282,12 @@ func opSSplit(a []string) string {
 	if ft.kind == "r" {
 		src.failAt = ft.at
 	}
-	ws := make([]*limWriter, d)
-	iw := make([]io.Writer, d)
+	nw := d // optional 7th argument: the number of writers handed to Split (the contract wants exactly DataShards)
+	if len(a) > 6 {
+		nw = atoi(a[6])
+	}
+	ws := make([]*limWriter, nw)
+	iw := make([]io.Writer, nw)
 	for j := range ws {
 		if ft.kind == "nilw" && ft.idx == j {
 			continue
